@@ -16,6 +16,9 @@ JOB_SET_FIELDS = ['required', '_s_successors']
 SCHED_SET_FIELDS = ['jobs']
 
 
+EXTRA_CLAUSES = []      # registered by contracts: fn(st) -> [(label, formula, fields)]
+
+
 def wf_clauses(st):
     """list of (label, formula, fields mentioned)"""
     o = L.fresh('o', L.Ref)
@@ -54,6 +57,8 @@ def wf_clauses(st):
                                                  z3.And(L.isa['AbstractJob'](x), st.alive(x))),
                               patterns=[st.mem(st.f(f, o), x)]),
                     {f, '$alive', '$elems'}))
+    for fn in EXTRA_CLAUSES:
+        out.extend(fn(st))
     return out
 
 
